@@ -28,7 +28,7 @@ GUARD = "GIVARO_VERIF"
 # configuration S: portable + sanitizers ; configuration R: the repository's own flags
 CFG = {
     "S": ["-std=gnu++17", "-O1", "-g", "-DNDEBUG", "-UDEBUG", "-fsanitize=address,undefined",
-          "-fno-sanitize-recover=undefined", "-D" + GUARD, "-Wno-deprecated-declarations"],
+          "-D" + GUARD, "-Wno-deprecated-declarations"],
     "R": ["-std=gnu++17", "-O2", "-march=native", "-DNDEBUG", "-UDEBUG", "-D" + GUARD,
           "-Wno-deprecated-declarations"],
     # plain: no sanitizers, moderate optimisation (fast to build; for heavy template harnesses)
